@@ -24,6 +24,7 @@ func init() {
 		Run: runC26,
 		Controls: []Control{
 			{Name: "api-reads-the-adj-rib-in-without-the-state-lock", File: "protocols/bgp/server/server.go", Old: "\tribIn, _ := fsm.establishedRIBs(afi, safi)\n\tr, _ := ribIn.(*adjRIBIn.AdjRIBIn)\n\treturn r\n", New: "\tf := fsm.addressFamily(afi, safi)\n\tif f == nil {\n\t\treturn nil\n\t}\n\tr, _ := f.adjRIBIn.(*adjRIBIn.AdjRIBIn)\n\treturn r\n", Expect: "guarded-by"},
+			{Name: "redistribute-check-writes-its-input", File: "route/path.go", Old: "\tp = p.Copy()\n\n\tif p.Type == newPathType {\n\t\tp.RedistributedFrom = 0\n\t\treturn p, false\n", New: "\tcp := p.Copy()\n\n\tif p.Type == newPathType {\n\t\tp.RedistributedFrom = 0\n\t\treturn cp, false\n\t}\n\tp = cp\n\tif false {\n", Expect: "check-redistribute-leaves-its-input-alone"},
 			{Name: "attributes-deduplicated-after-the-path-was-queued", File: "routingtable/adjRIBOut/adj_rib_out.go", Old: "\tp.BGPPath = p.BGPPath.Dedup()\n\n\treturn a.addPath(pfx, p)\n", New: "\terr := a.addPath(pfx, p)\n\tp.BGPPath = p.BGPPath.Dedup()\n\treturn err\n", Expect: "no-write-after-publish"},
 			{Name: "client-map-handed-out-live", File: "routingtable/client_manager.go", Old: "// GetOptions gets the options for a registered client\n", New: "func (c *ClientManager) ClientsWithOptions() map[RouteTableClient]ClientOptions {\n\tc.mu.RLock()\n\tdefer c.mu.RUnlock()\n\n\treturn c.clients\n}\n\n// GetOptions gets the options for a registered client\n", Expect: "guarded-reference-stays-inside"},
 			{Name: "refactor-explicit-unlocks", Silent: true, File: "protocols/bgp/server/peer.go", Old: "func (p *peer) singleFSM() *FSM {\n\tp.fsmsMu.Lock()\n\tdefer p.fsmsMu.Unlock()\n\n\tif len(p.fsms) != 1 {\n\t\treturn nil\n\t}\n\n\treturn p.fsms[0]\n}", New: "func (p *peer) singleFSM() *FSM {\n\tp.fsmsMu.Lock()\n\tif len(p.fsms) != 1 {\n\t\tp.fsmsMu.Unlock()\n\t\treturn nil\n\t}\n\n\tfsm := p.fsms[0]\n\tp.fsmsMu.Unlock()\n\treturn fsm\n}"},
@@ -113,6 +114,7 @@ var c26Table = []guardRow{
 }
 
 func runC26(c *core.Ctx) {
+	checkRedistributeLeavesItsInputAlone(c, "check-redistribute-leaves-its-input-alone")
 	noWriteAfterPublish(c)
 	p := c.P
 	lp := core.BuildLockProg(p, func(f *core.Fn) bool {
